@@ -165,6 +165,9 @@ fn inject(project: &mut Project, g: &GraphSpec, file: usize, fault: Fault, early
 
 fn gen_case(c: &mut Choices) -> Case {
     let mut g = gen_graph(c, 1, 5, true, false);
+    // the fault injector relies on the plain file layout
+    g.empty.clear();
+    g.raw_self.clear();
     g.rich = false;
     g.pre_marker.iter_mut().for_each(|b| *b = false);
     let k = 1 + c.below(g.n.min(2));
